@@ -421,6 +421,34 @@ func Load(cfg LoadConfig) (*Prog, error) {
 	if err != nil || cfg.NoNormalise {
 		return p, err
 	}
+	// helpers that call other new helpers in their arguments are expanded one layer per round
+	cur, curCfg := p, cfg
+	var allInlined, lastLeft []string
+	for round := 0; round < 3; round++ {
+		p2, cfg2, inlined, left, ok := normaliseRound(cur, curCfg)
+		lastLeft = left
+		if !ok {
+			break
+		}
+		cur, curCfg = p2, cfg2
+		allInlined = append(allInlined, inlined...)
+		if len(left) == 0 {
+			break
+		}
+	}
+	cur.Inlined, cur.NotInl = allInlined, lastLeft
+	if d := os.Getenv("TABLELINT_DUMP_NORMALISED"); d != "" && len(allInlined) > 0 {
+		for k, v := range curCfg.Overlay {
+			os.WriteFile(filepath.Join(d, strings.ReplaceAll(strings.TrimPrefix(k, "/"), "/", "_")), v, 0o644)
+		}
+	}
+	cur.Cfg = cfg
+	return cur, nil
+}
+
+// normaliseRound expands the new helpers of p once and loads the result; ok is false when nothing was (or could
+// be) expanded, and then p stands.
+func normaliseRound(p *Prog, cfg LoadConfig) (*Prog, LoadConfig, []string, []string, bool) {
 	// two functions can end up with the same canonical name (the role-based naming may take an extracted
 	// half of a function for the function itself): the one whose own name differs is then the new one
 	perKey := map[string][]*types.Func{}
@@ -501,12 +529,11 @@ func Load(cfg LoadConfig) (*Prog, error) {
 		}
 	}
 	if !anyNew {
-		return p, nil
+		return p, cfg, nil, nil, false
 	}
 	ov, inlined, left := normalise(pkgs, cfg.Overlay, os.ReadFile, isNew)
 	if len(inlined) == 0 {
-		p.NotInl = left
-		return p, nil
+		return p, cfg, nil, left, false
 	}
 	cfg2 := cfg
 	cfg2.NoNormalise = true
@@ -533,17 +560,9 @@ func Load(cfg LoadConfig) (*Prog, error) {
 			}
 		}
 		// the expansion does not type-check: analyse the program as it is
-		p.NotInl = append(left, inlined...)
-		return p, nil
+		return p, cfg, nil, append(left, inlined...), false
 	}
-	p2.Inlined, p2.NotInl = inlined, left
-	if d := os.Getenv("TABLELINT_DUMP_NORMALISED"); d != "" {
-		for k, v := range cfg2.Overlay {
-			os.WriteFile(filepath.Join(d, strings.ReplaceAll(strings.TrimPrefix(k, "/"), "/", "_")), v, 0o644)
-		}
-	}
-	p2.Cfg = cfg
-	return p2, nil
+	return p2, cfg2, inlined, left, true
 }
 
 // funcSig: parameter and result types of a function, with the module's named types under their canonical names.
